@@ -2,12 +2,50 @@
 
 use crate::{canon, escape, unescape, Session};
 
-/// canonical form with at most 7 levels of nested elements (lists built through the API may be cyclic)
+/// canonical form for API results: at most 4 levels of nested elements and 12 elements per list (lists built
+/// through the API may be cyclic or heavily shared, and their full rendering can be exponentially large)
+fn canon_api(o: &TulispObject, out: &mut String, depth: usize) {
+    if depth == 0 {
+        out.push_str("#<deep>");
+        return;
+    }
+    if !o.consp() {
+        canon(o, out, 0);
+        return;
+    }
+    out.push('(');
+    let mut cur = o.clone();
+    let mut n = 0;
+    loop {
+        if n > 0 {
+            out.push(' ');
+        }
+        if n == 12 {
+            out.push_str("...)");
+            return;
+        }
+        n += 1;
+        canon_api(&cur.car().unwrap(), out, depth - 1);
+        let cdr = cur.cdr().unwrap();
+        if cdr.null() {
+            break;
+        }
+        if !cdr.consp() {
+            out.push_str(" . ");
+            canon_api(&cdr, out, depth - 1);
+            break;
+        }
+        cur = cdr;
+    }
+    out.push(')');
+}
+
 fn canon_string(o: &TulispObject) -> String {
     let mut s = String::new();
-    canon(o, &mut s, 394);
+    canon_api(o, &mut s, 4);
     s
 }
+
 use tulisp::{destruct_bind, list, lists, tulisp_fn, Error, ErrorKind, TulispContext, TulispObject};
 
 pub fn register_host_fns(ctx: &mut TulispContext) {
